@@ -83,7 +83,8 @@ def sym_context(I, domain='known', name='i'):
     if domain == 'supported':
         rs = ranges(supported_indices())
         E.assume(Or(*[And(i >= a, i <= b) for a, b in rs]))
-    ctx = ConnectionContext.__new__(ConnectionContext)
+    # built by the REAL constructor (whatever private attributes it creates exist), then given the symbolic version
+    ctx = ConnectionContext(protocol_version=0)
     ctx.__dict__['protocol_version'] = SymProtocol(i)
     if hasattr(I, 'tracked_frames'):
         I.tracked_frames.append(('context', ctx, dict(vars(ctx))))
